@@ -8,6 +8,7 @@ from vf.model import auction as A, play as P
 from vf.props import _play as PL
 
 ID = 'C19'
+USES_SIM = True
 LEVEL = 'exploration'
 RULE = ('(a) Server.hand_to_str -> Client.parse_cards/parse_hand for Hypothesis hands of 0-13 cards (biased to voids) under '
         'every seat name and "Dummy"; Client.create_bid_message for all 38 calls x 4 seats x case variants (as built, lower, '
